@@ -89,6 +89,7 @@ type Cache struct {
 	closeOnce    sync.Once
 	closeNotify  chan struct{}
 	updatedKey   atomic.Uint64
+	dumpMu       sync.Mutex // serialises dumps to args.DumpFile
 
 	queryTotal   prometheus.Counter
 	hitTotal     prometheus.Counter
@@ -310,6 +311,11 @@ func (c *Cache) dumpCache() error {
 	if len(c.args.DumpFile) == 0 {
 		return nil
 	}
+
+	// The periodic dump and the final dump of Close() may run at the same
+	// time. Two writers streaming into the same file would corrupt it.
+	c.dumpMu.Lock()
+	defer c.dumpMu.Unlock()
 
 	f, err := os.Create(c.args.DumpFile)
 	if err != nil {
